@@ -53,6 +53,8 @@ def b_str(interp, args, kwargs, node):
         return v
     if hasattr(v, 'hm_str'):
         return v.hm_str(interp)
+    if isinstance(v, (list, tuple)) and all(isinstance(x, (str, int, float, bool, type(None))) for x in v):
+        return str(v)
     if isinstance(v, SBool):
         return mk_str(z3.If(v.t, z3.StringVal('True'), z3.StringVal('False')))
     if isinstance(v, SInt):
